@@ -40,3 +40,38 @@ Definition run_u (u:uinput) : output :=
   then mkOut (g_db0 gi)
              (existsb run_step_off (mk_steps_sql (g_graph gi) (g_msteps gi) (Heads.start (vrows (g_db0 gi)))))
   else txn_run_g gi.
+
+(* ---- a query between configure() and begin_transaction() (env.py logs context.get_context().get_current_heads(), or
+   runs a statement on the connection): under SQLAlchemy 2.0 it autobegins a transaction on the connection, but
+   `_in_external_transaction` was fixed when the MigrationContext was constructed, so the decision tree is unchanged *)
+Definition txn_run_q (q:bool) (i:input) : output :=
+  let k := i_kind i in
+  let s0 := mkSt (mkDB (i_db0 i) None) false false in
+  let s1 := if i_external i then sa_autobegin k s0 else s0 in
+  let c := mkMcfg (i_tddl i) (i_per_mig i) (s_sa s1) false in      (* MigrationContext.__init__ *)
+  let s1q := if q then sa_autobegin k s1 else s1 in                (* the query *)
+  let '(b, s2) := bt_enter k c false s1q in
+  let '(s3, raised) := run_migrations k c (i_steps i) s2 in
+  let s4 := bt_exit b raised s3 in
+  let s5 := if i_external i then (if raised then sa_rollback s4 else sa_commit s4) else s4 in
+  let s6 := sa_rollback s5 in
+  mkOut (committed (s_db s6)) raised.
+
+(* ---- several databases configured one after the other through ONE EnvironmentContext, online (the multidb env.py).
+   EnvironmentContext.configure:  opts = self.context_opts     -- one dict for all configure() calls
+                                  if transactional_ddl is not None: opts["transactional_ddl"] = transactional_ddl
+                                  opts["transaction_per_migration"] = transaction_per_migration      -- unconditionally
+   so database k runs under call k's transaction_per_migration and under the last explicit transactional_ddl given up to
+   call k (the dialect default if none was) *)
+Record ucall := mkUcall { uc_tddl : option bool; uc_in : ginput }.    (* g_tddl of uc_in is ignored: it is computed *)
+Definition acc_opt (prev arg:option bool) : option bool := match arg with Some b => Some b | None => prev end.
+Definition eff_tddl_multi (dflt:bool) (args:list (option bool)) : bool :=
+  match fold_left acc_opt args None with Some b => b | None => dflt end.
+Definition with_tddl (gi:ginput) (t:bool) : ginput :=
+  mkGin (g_graph gi) (g_kind gi) t (g_per_mig gi) (g_external gi) (g_msteps gi) (g_db0 gi) (g_exc gi).
+Fixpoint multi_run (dflt:bool) (prev:option bool) (calls:list ucall) : list output :=
+  match calls with
+  | [] => []
+  | c :: r => let a := acc_opt prev (uc_tddl c) in
+              txn_run_g (with_tddl (uc_in c) (match a with Some b => b | None => dflt end)) :: multi_run dflt a r
+  end.
